@@ -47,6 +47,10 @@ CHECKS = {
             "exhaustive single-corruption enumeration (every byte x bit flips / 0x00 / 0xFF / every truncation) with cold reopen in worker processes",
             "Every byte of every file (`current`, v<N>, tables, blob files) of each persisted subject tree is corrupted once; the mutant is opened with fresh caches in a worker process and every read (get/contains/size_of for present and absent keys at every snapshot and MAX, forward/reverse scans, len, first/last, a sub-range) is compared with the pristine answers. Only a silently different answer is a violation; errors, panics, aborts and timeouts are counted as loud failures.",
             "6.3, 7 C10", "Trusted base: the worker protocol, the pristine baseline computed by the same workload code. One corruption per mutant."),
+    "C11": ("cfgmc", "model_checking",
+            "exhaustive enumeration of the physical-configuration product x fixed histories on the real tree, differential against the default configuration and the reference map",
+            "Six layout-rich histories (two L0 tables with snapshots, levels + sealed memtables, ingestion + reopen, blob overwrites with relocation, two bulk histories of 400/700 keys) are run under every configuration of block size x restart interval x hash ratio x index/filter partitioning x index/filter pinning x filter policy x expect_point_read_hits x cache capacity x descriptor table (quick: Hamming distance <= 3 from the default, thorough: the full product of 10368); every answer must equal the model and the default-configuration run, cold and warm; two and three trees with coinciding table ids share one cache (0 / 4 KiB / 16 MiB) and descriptor table (none / 1 / 256) with interleaved reads, and a second handle is opened on a live directory.",
+            "7 C11", HX_NOTE + " Compression fixed to none."),
     "C12": ("tablemc", "model_checking",
             "bounded exhaustive enumeration of item streams x 216 writer settings x recover variants x probes on the real table::Writer / Table",
             "Every strictly ordered stream of up to 3 entries over a 3x3 key/seqno grid with all four value types and three value-size patterns (quick: up to 2 plus a slice of 3), 4-5 entry two-key streams and an adversarial family are written under every combination of block size, restart interval, hash ratio, index/filter partitioning and partition size, recovered pinned/unpinned with global seqno 0/7 and with/without descriptor table, and read back through metadata, scan, iter (both directions), every bound pair under every next/next_back interleaving and get for every key x seqno.",
@@ -92,7 +96,7 @@ NOT_YET = {
     "_C08": "check not built yet (hx differential blob vs standard) - in progress",
     "_C09": "check not built yet (hx blob gc accounting oracle) - in progress",
     "_C10": "check not built yet (corrupt engine) - in progress",
-    "C11": "check not built yet (configuration product) - in progress",
+    "_C11": "check not built yet (configuration product) - in progress",
     "_C12": "check not built yet (tablemc engine) - in progress",
     "_C15": "check not built yet (hx drop_range/clear alphabet) - in progress",
     "_C16": "check not built yet (fault engine) - in progress",
